@@ -19,7 +19,7 @@ VARIABLES phase,       \* "connecting" | "failed" | "auth" | "closing" | "hello"
           tried,       \* number of endpoints tried so far
           fired,       \* outcome delivered by the Deferred of connect(): "none" | "ok" | "fail"
           nfired,      \* how often it fired
-          call,        \* [Calls -> "new" | "out" | "lost" | "ok"]
+          call,        \* [Calls -> "new" | "out" | "lost" | "ok" | "timeout"]
           timers,      \* calls with an armed deadline
           cb,          \* [Cbs -> "unreg" | "conn" | "explicit" | "intro" | "dropped"] where the callback is registered
           ran,         \* [Cbs -> number of times the callback ran]
@@ -71,6 +71,12 @@ ReplyCall(k) ==
     /\ call' = [call EXCEPT ![k] = "ok"] /\ timers' = timers \ {k}
     /\ UNCHANGED <<phase, idx, tried, fired, nfired, cb, ran, late>>
 
+(* the deadline of call k passes before any reply *)
+ExpireCall(k) ==
+    /\ phase = "ready" /\ call[k] = "out" /\ k \in timers
+    /\ call' = [call EXCEPT ![k] = "timeout"] /\ timers' = timers \ {k}
+    /\ UNCHANGED <<phase, idx, tried, fired, nfired, cb, ran, late>>
+
 (* register callback x: on the connection, or on a proxy obtained with explicit interfaces, or on an
    introspected proxy (all proxies are for the same remote object, i.e. share bus name and path) *)
 Register(x, where) ==
@@ -102,7 +108,7 @@ Quiet ==
 Next ==
     \/ (\E why \in {"refused", "dns", "timeout"} : EpFail(why)) \/ EpOk \/ AuthOk \/ AuthRefused \/ HelloOk \/ HelloErr \/ Close \/ Quiet
     \/ \E k \in Calls, t \in BOOLEAN : IssueCall(k, t)
-    \/ \E k \in Calls : ReplyCall(k)
+    \/ \E k \in Calls : ReplyCall(k) \/ ExpireCall(k)
     \/ \E x \in Cbs, w \in {"conn", "explicit", "intro"} : Register(x, w)
     \/ \E x \in Cbs : DropProxy(x)
 
